@@ -82,12 +82,29 @@ PathCompatible(doc, k, R) == Assoc(doc, k) \in {0, R} /\ (doc.parent[k] = 0 \/ P
 
 IsLeaf(doc, k) == doc.kind[k] \in {"br", "text"}
 
+\* Ruby.  A ruby container is a base (rb / rbc) and an annotation (rt / rtc).  The base element comes with its container
+\* even when it has nothing to show; the annotation is presented only with content of its own.  An annotation has
+\* nothing to annotate without a base: when the base ELEMENT is not presentable the whole container goes.  When only the
+\* annotation is not presentable, the base text is still presented (as plain spans of the paragraph - the ruby, rb
+\* containers have no annotation to carry and are not part of the snapshot).
+Presentable(doc, k, R, t) == ActivePath(doc, k, t) /\ ~HiddenPath(doc, k, t) /\ PathCompatible(doc, k, R)
+
+BaseKept(doc, r, R, t) ==
+  \E c \in 1..doc.n : doc.parent[c] = r /\ doc.kind[c] \in {"rb", "rbc"} /\ Presentable(doc, c, R, t)
+
+RECURSIVE RubyOk(_, _, _, _)
+RubyOk(doc, k, R, t) ==
+  IF doc.parent[k] = 0 THEN TRUE
+  ELSE /\ (doc.kind[doc.parent[k]] = "ruby" => BaseKept(doc, doc.parent[k], R, t))
+       /\ RubyOk(doc, doc.parent[k], R, t)
+
 \* R = 0 is the default region, which exists iff the document declares none
 LeafIn(doc, k, R, t) ==
   /\ IsLeaf(doc, k)
   /\ doc.kind[k] = "text" => doc.txt[k] = 1
   /\ ActivePath(doc, k, t) /\ ~HiddenPath(doc, k, t)
   /\ Assoc(doc, k) = R /\ PathCompatible(doc, k, R)
+  /\ RubyOk(doc, k, R, t)
 
 RegionDispAt(doc, r, t) ==
   LET a == LastActive(doc.ranim[r], Len(doc.ranim[r]), Off(doc.rb[r]), doc.re[r], t)
@@ -110,8 +127,12 @@ Ancestors(doc, k) == IF doc.parent[k] = 0 THEN {} ELSE {doc.parent[k]} \cup Ance
 Containers(doc, R, t) ==
   LET ls == Leaves(doc, R, t)
       up == UNION {Ancestors(doc, k) : k \in ls}
-  IN  up \cup {k \in 1..doc.n : doc.kind[k] \in {"rb", "rbc"} /\ doc.parent[k] \in up
-                                 /\ ActivePath(doc, k, t) /\ ~HiddenPath(doc, k, t) /\ PathCompatible(doc, k, R)}
+      \* ruby containers whose annotation shows nothing: only the base text is presented
+      bare == {r \in up : doc.kind[r] = "ruby" /\
+                 ~\E k \in ls : \E a \in Ancestors(doc, k) : doc.parent[a] = r /\ doc.kind[a] \in {"rt", "rtc"}}
+      all == up \cup {k \in 1..doc.n : doc.kind[k] \in {"rb", "rbc"} /\ doc.parent[k] \in up /\ Presentable(doc, k, R, t)}
+  IN  all \ (bare \cup {k \in all : doc.kind[k] \in {"rb", "rbc"} /\ doc.parent[k] \in bare}
+                   \cup {k \in all : doc.kind[k] = "rb" /\ doc.parent[k] # 0 /\ doc.parent[doc.parent[k]] \in bare})
 
 SetToSeq(s) == LET RECURSIVE f(_) f(x) == IF x = {} THEN <<>> ELSE LET m == CHOOSE y \in x : \A z \in x : y <= z IN <<m>> \o f(x \ {m}) IN f(s)
 
